@@ -40,7 +40,7 @@ void harness(void) {
   uint8_t live_name[2]; live_name[0] = 'f'; live_name[1] = 0; uint8_t res_name[3]; res_name[0] = 'a'; res_name[1] = 'b'; res_name[2] = 0;
   coap_bin_const_t save_file = { 1, live_name }; coap_str_const_t rname = { 2, res_name };
   ctx->obs_cnt_save_file = &save_file; G_live_path = (const char *)live_name;
-  G_live_open = G_tmp_open = G_tmp_created = G_tmp_write_failed = G_tmp_writes = G_tmp_flushed = G_tmp_flush_failed = G_renamed = G_tmp_removed = G_reads = 0; G_read_limit = 2;
+  G_live_open = G_tmp_open = G_tmp_created = G_tmp_write_failed = G_tmp_writes = G_tmp_flushed = G_tmp_flush_failed = G_renamed = G_tmp_removed = G_reads = G_live_ever = 0; G_read_limit = 2;
   IN_SCALAR(uint32_t, n);
 #if WHICH == 1
   int r = coap_op_obs_cnt_track_observe(ctx, &rname, n, NULL);
@@ -69,7 +69,11 @@ void harness(void) {
 #endif
 #endif
   CHECK(r == 0 || r == 1, "the updater returns 0 or 1");
+#if WHICH == 5
+  CHECK(r == 1 ? (G_renamed == 1 || G_live_ever == 0) : G_renamed == 0, "the live file is replaced exactly when the updater reports success (or there was no live file to update), never on a failure path");
+#else
   CHECK(r == G_renamed, "the live file is replaced exactly when the updater reports success (never on a failure path)");
+#endif
   CHECK(G_live_open == 0 && G_tmp_open == 0, "no stream is left open");
   CHECK(r == 1 || !G_tmp_created || G_tmp_removed, "on failure the temporary file is removed");
   CHECK(r == 0 || G_tmp_writes >= ((WHICH == 1 || WHICH == 4) ? 1 : WHICH == 6 ? 7 : 0), "the new record is part of the new file");
